@@ -256,7 +256,7 @@ func (c *Ctx) ord10() {
 			case "(*Client).subscribeLevel", "(*Client).Unsubscribe":
 				nonEmpty, sized := false, false
 				for _, cm := range assumed(p, 0, ie) {
-					if x, ok := builtinCall(cm.X, "len"); ok && isParamNamed(x, "topicFilters") && (cm.Op == token.NEQ || cm.Op == token.GTR) && isK(cm.Y, 0) {
+					if x, ok := builtinCall(cm.X, "len"); ok && isParamOfType(x, "[]string") && (cm.Op == token.NEQ || cm.Op == token.GTR) && isK(cm.Y, 0) {
 						nonEmpty = true
 					}
 					if isK(cm.Y, c.constInt("packetMax")) && cm.Op == token.LEQ {
